@@ -107,7 +107,21 @@ func cmdStress(args []string) int {
 						}
 					}
 					env.Rec.Log(gate.Event{"e": "Invoke", "p": name, "i": i + 1, "op": o.Type, "k": o.Key, "exp": gate.Clip(o.Exp), "v": o.Val})
-					r := callOp(env, o)
+					var r opResult
+					panicked := false
+					func() {
+						// a panic inside the code under test is an observation (trace event Panic), not the end of the driver
+						defer func() {
+							if x := recover(); x != nil {
+								panicked = true
+								env.Rec.Log(gate.Event{"e": "Panic", "p": name, "i": i + 1, "op": o.Type, "msg": fmt.Sprint(x)})
+							}
+						}()
+						r = callOp(env, o)
+					}()
+					if panicked {
+						return
+					}
 					env.Rec.Log(gate.Event{"e": "Return", "p": name, "i": i + 1, "op": o.Type, "k": o.Key, "exp": gate.Clip(o.Exp), "v": o.Val,
 						"succ": r.Succ, "hdr": gate.Clip(r.Hdr), "kvrev": gate.Clip(r.KvRev), "kvval": r.KvVal, "err": r.Err})
 					mu.Lock()
